@@ -3,7 +3,8 @@
    consistency, refinement of the line-by-line model Defs.v to the abstract LRU cache of Spec.v), ProofsSpec.v
    (refinement of the abstract cache to the map specification m_step / m_fetch of Spec.v) and ProofsCor.v (the
    clauses of the property text over explicit histories). *)
-From CppcmsV Require Import Base.Tac C07.Defs C07.Spec C07.Util C07.ProofsInv C07.MapSpec C07.ProofsSpec C07.ProofsCor C07.Ifc C07.ProofsIfc.
+From CppcmsV Require Import Base.Tac C07.Defs C07.Spec C07.Util C07.ProofsInv C07.MapSpec C07.ProofsSpec C07.ProofsCor C07.Ifc C07.ProofsIfc C07.HashMap C07.ProofsHash C07.Link.
+From CppcmsV Require Import Base.CSem gen.Gen_C07_hash.
 Local Open Scope N_scope.
 
 (* 1. Mirror consistency (Inv, Spec.v): primary, triggers, timeout and lru describe the same entry set,
@@ -106,6 +107,11 @@ Theorem live_entry_found : forall now pre k v tin d g mid,
     last_out (snd (run now ((pre ++ Store k v tin d g FNone [] :: mid) ++ [Fetch k]) (init 0))) = OHit v (store_trigs k tin) d g'.
 Proof. exact live_entry_found_l. Qed.
 Print Assumptions live_entry_found.
+Theorem rise_kills_exactly : forall t s, Inv s -> forall k,
+  pfind k (primary (rise t s)) =
+  match pfind k (primary s) with Some c => if kmem t (c_trigs c) then None else Some c | None => None end.
+Proof. exact rise_kills_exactly_l. Qed.
+Print Assumptions rise_kills_exactly.
 
 (* non-vacuity: a history that satisfies the hypotheses of fetch_miss_after_invalidation (rise of a trigger that is the
    key of another entry), one for live_entry_found with a limit-free cache, and a limited cache where the sound
@@ -195,3 +201,46 @@ Proof.
   split; [reflexivity|]. vm_compute. intros [H|(g' & _ & H)]; discriminate.
 Qed.
 Print Assumptions fetch_hit_is_latest_store_without_hypothesis_refuted.
+
+(* 8. private/hash_map.h (the container behind mem_cache::primary and mem_cache::triggers, which Defs.v treats as a finite
+      map): the model HashMap.v of basic_map - one intrusive list, per-bucket (first,last) ranges, rehash that relinks every
+      node, erase that repairs the range ends - refines a finite map.  HInv = the list is a concatenation of non-empty blocks,
+      one per occupied bucket, every node in the block of its hash bucket, every table entry the (first,last) of its block,
+      keys unique, size_ = number of nodes.
+   a. find returns exactly the binding of the key (first match in the list = the unique one);
+   b. for EVERY sequence of insert / find / erase / clear / rehash (rehash(0) only on an empty map, as nl_clear does) the
+      results equal those of the finite map key -> value (insert does not overwrite), and after every operation
+      size() = number of nodes and the keys are pairwise different;
+   c. tie: string_hash::update_state / initial_state as translated from the current header equal the model hash, so the
+      bucket of a key in the model is the bucket in the implementation. *)
+Theorem hashmap_find_is_lookup : forall (V : Type) (h : @hmap V) k, HInv h -> h_find k h = lfind k (h_list h).
+Proof. intros V h k H. exact (h_find_correct h k H). Qed.
+Print Assumptions hashmap_find_is_lookup.
+Theorem hashmap_step_refines_finite_map : forall (V : Type) o (h : @hmap V) M,
+  represents_map h M -> match o with HRehash O => forall k, M k = None | _ => True end ->
+  represents_map (fst (h_step o h)) (fst (f_step o M)) /\ snd (h_step o h) = snd (f_step o M).
+Proof. intros V o h M. exact (h_step_refines o h M). Qed.
+Print Assumptions hashmap_step_refines_finite_map.
+Theorem hashmap_refines_finite_map : forall (V : Type) ops, hops_ok ops (fun _ : key => @None V) ->
+  map fst (h_run ops (@h_empty V)) = f_run ops (fun _ => None) /\
+  Forall (fun x => fst (snd x) = N.of_nat (length (snd (snd x))) /\ NoDup (map fst (snd (snd x)))) (h_run ops (@h_empty V)).
+Proof. intros V ops H. exact (h_run_refines ops h_empty (fun _ => None) represents_empty H). Qed.
+Print Assumptions hashmap_refines_finite_map.
+Theorem source_hash_update_is_model : forall h b, (b < 256)%N -> g_c07_hash_update h (wraps 8 (Z.of_N b)) = hash_update h b.
+Proof. exact link_hash_update. Qed.
+Print Assumptions source_hash_update_is_model.
+Theorem source_string_hash_is_model : forall k, Forall (fun b => (b < 256)%N) k ->
+  fold_left (fun h b => g_c07_hash_update h (wraps 8 (Z.of_N b))) k g_c07_hash_initial = string_hash k.
+Proof. exact link_string_hash. Qed.
+Print Assumptions source_string_hash_is_model.
+
+(* non-vacuity: keys a..e fall into 2 buckets of the 2-slot table the first insert creates; growth rehashes; erase of a
+   first, a last and a middle node of a bucket; rehash to one bucket; clear.  hash(ab) = 97*16+98 *)
+Example hashmap_nonvacuous :
+  let ops := [HInsert [97] 1%N; HInsert [98] 2%N; HInsert [99] 3%N; HInsert [97] 9%N; HInsert [100] 4%N; HInsert [101] 5%N;
+              HFind [99]; HErase [97]; HErase [101]; HErase [99]; HFind [97]; HFind [98]; HRehash 1; HFind [100]; HClear; HFind [98]] in
+  map fst (h_run ops h_empty) =
+    [HInserted true; HInserted true; HInserted true; HInserted false; HInserted true; HInserted true;
+     HFound 3%N; HFound 1%N; HFound 5%N; HFound 3%N; HNotFound; HFound 2%N; HDone; HFound 4%N; HDone; HNotFound] /\
+  hops_ok ops (fun _ => @None N) /\ string_hash [97; 98] = 1650%Z.
+Proof. vm_compute. repeat split. Qed.
